@@ -15,37 +15,37 @@ type Anchors struct {
 	w *World
 
 	Ch, CS, SS, Sv *types.Named // channel, client stream, server stream, tunnel server
-	ChStreams       FieldRef     // map[int64]*CS in Ch
-	SvStreams       FieldRef     // map[int64]*SS in Sv
-	CSDone          FieldRef     // atomic.Pointer terminal marker of CS
-	SSHalfClosed    FieldRef     // atomic.Pointer half-close marker of SS
+	ChStreams      FieldRef     // map[int64]*CS in Ch
+	SvStreams      FieldRef     // map[int64]*SS in Sv
+	CSDone         FieldRef     // atomic.Pointer terminal marker of CS
+	SSHalfClosed   FieldRef     // atomic.Pointer half-close marker of SS
 
-	ClientLoop   *ssa.Function // (*Ch).recvLoop
-	ServerLoop   *ssa.Function // (*Sv).serve
-	ClientFinish *ssa.Function // (*CS).finishStream
-	ServerFinish *ssa.Function // (*SS).finishStream
-	ServerHalf   *ssa.Function // (*SS).halfClose
-	Create       *ssa.Function // (*Sv).createStream
-	Allocate     *ssa.Function // (*Ch).allocateStream
-	NewStream    *ssa.Function // (*Ch).newStream
-	Dispatch     *ssa.Function // (*SS).serveStream
-	ClientReasm  *ssa.Function // (*CS).readMsgLocked
-	ServerReasm  *ssa.Function // (*SS).readMsgLocked
-	ClientRead   *ssa.Function // (*CS).readMsg
-	ServerRead   *ssa.Function // (*SS).readMsg
-	ClientAccept *ssa.Function // (*CS).acceptServerFrame
-	ServerAccept *ssa.Function // (*SS).acceptClientFrame
-	CancelStream *ssa.Function // (*CS).cancelStream
-	ChClose      *ssa.Function // (*Ch).close
-	ClientLookup *ssa.Function // (*Ch).getStream
-	ServerLookup *ssa.Function // (*Sv).getStream
-	ClientRemove *ssa.Function // (*Ch).removeStream
-	ServerRemove *ssa.Function // (*Sv).removeStream
-	TimeoutParse *ssa.Function
-	ClientSend   *ssa.Function // (*CS).SendMsg
-	ServerSend   *ssa.Function // (*SS).SendMsg
-	ClientRecv   *ssa.Function // (*CS).RecvMsg
-	ServerRecv   *ssa.Function // (*SS).RecvMsg
+	ClientLoop    *ssa.Function // (*Ch).recvLoop
+	ServerLoop    *ssa.Function // (*Sv).serve
+	ClientFinish  *ssa.Function // (*CS).finishStream
+	ServerFinish  *ssa.Function // (*SS).finishStream
+	ServerHalf    *ssa.Function // (*SS).halfClose
+	Create        *ssa.Function // (*Sv).createStream
+	Allocate      *ssa.Function // (*Ch).allocateStream
+	NewStream     *ssa.Function // (*Ch).newStream
+	Dispatch      *ssa.Function // (*SS).serveStream
+	ClientReasm   *ssa.Function // (*CS).readMsgLocked
+	ServerReasm   *ssa.Function // (*SS).readMsgLocked
+	ClientRead    *ssa.Function // (*CS).readMsg
+	ServerRead    *ssa.Function // (*SS).readMsg
+	ClientAccept  *ssa.Function // (*CS).acceptServerFrame
+	ServerAccept  *ssa.Function // (*SS).acceptClientFrame
+	CancelStream  *ssa.Function // (*CS).cancelStream
+	ChClose       *ssa.Function // (*Ch).close
+	ClientLookup  *ssa.Function // (*Ch).getStream
+	ServerLookup  *ssa.Function // (*Sv).getStream
+	ClientRemove  *ssa.Function // (*Ch).removeStream
+	ServerRemove  *ssa.Function // (*Sv).removeStream
+	TimeoutParse  *ssa.Function
+	ClientSend    *ssa.Function // (*CS).SendMsg
+	ServerSend    *ssa.Function // (*SS).SendMsg
+	ClientRecv    *ssa.Function // (*CS).RecvMsg
+	ServerRecv    *ssa.Function // (*SS).RecvMsg
 	HeadersLocked *ssa.Function // (*SS).sendHeadersLocked
 
 	How     map[string]string // role -> how it was resolved
@@ -215,7 +215,7 @@ func (w *World) Anchors() *Anchors {
 			continue
 		}
 		rn := recvNamed(fn)
-		allInstrs(fn, func(in ssa.Instruction) {
+		allInstrsLocal(fn, func(in ssa.Instruction) {
 			switch x := in.(type) {
 			case *ssa.MapUpdate:
 				if fr, _, ok := loadedField(x.Map); ok {
@@ -283,11 +283,27 @@ func (w *World) Anchors() *Anchors {
 		})
 	}
 	// emit-site based anchors
-	for _, e := range w.EmitSites() {
-		top := e.Fn
-		for top.Parent() != nil {
-			top = top.Parent()
+	// the function an emit site belongs to: out of function literals, and out of unexported functions that are used at
+	// exactly one place (a method started with `go`, an extracted helper) into the function that uses them
+	climb := func(fn *ssa.Function) *ssa.Function {
+		for i := 0; i < 6; i++ {
+			if fn.Parent() != nil {
+				fn = fn.Parent()
+				continue
+			}
+			if obj := fn.Object(); obj == nil || obj.Exported() {
+				break
+			}
+			sites := w.callSitesOf(fn)
+			if len(sites) != 1 || staticCallee(sites[0]) == nil {
+				break
+			}
+			fn = sites[0].Parent()
 		}
+		return fn
+	}
+	for _, e := range w.EmitSites() {
+		top := climb(e.Fn)
 		switch e.Kind {
 		case "ClientToServer_NewStream":
 			a.NewStream = top
@@ -300,15 +316,16 @@ func (w *World) Anchors() *Anchors {
 				a.ServerFinish = top
 				a.How["ServerFinish"] = "method of SS enclosing the close_stream emit site"
 			}
-		case "ServerToClient_ResponseHeaders":
-			if e.Fn.Parent() == nil && e.Fn != a.ServerFinish {
-				a.HeadersLocked = e.Fn
-			}
+		}
+	}
+	for _, e := range w.EmitSites() {
+		if top := climb(e.Fn); e.Kind == "ServerToClient_ResponseHeaders" && e.Fn.Parent() == nil && top != a.ServerFinish && !(e.Send == nil && e.Via == nil) {
+			a.HeadersLocked = top
 		}
 	}
 	// dispatch = callee of the `go` in Create with a method-descriptor argument
 	if a.Create != nil {
-		allInstrs(a.Create, func(in ssa.Instruction) {
+		allInstrsLocal(a.Create, func(in ssa.Instruction) {
 			if g, ok := in.(*ssa.Go); ok {
 				for _, f := range w.rootCalleesThroughWrappers(g) {
 					if f.Parent() == nil {
@@ -333,7 +350,7 @@ func (w *World) Anchors() *Anchors {
 	// the close function of Ch: the method that writes the `finished`-style flag and cancels all streams:
 	// identified as the Ch method ranging over the stream table.
 	for _, fn := range w.methodsOf(a.Ch) {
-		allInstrs(fn, func(in ssa.Instruction) {
+		allInstrsLocal(fn, func(in ssa.Instruction) {
 			if r, ok := in.(*ssa.Range); ok {
 				if fr, _, ok := loadedField(r.X); ok && fr == a.ChStreams {
 					a.ChClose = fn
@@ -472,7 +489,7 @@ func ifaceMethodRole(m *types.Func) string {
 // callsCAS: the function contains a CompareAndSwap (i.e. it is a finishing function, not a dedicated remover).
 func callsCAS(fn *ssa.Function) bool {
 	found := false
-	allInstrs(fn, func(in ssa.Instruction) {
+	allInstrsLocal(fn, func(in ssa.Instruction) {
 		if ci, ok := in.(ssa.CallInstruction); ok && strings.HasSuffix(calleeName(ci), ".CompareAndSwap") {
 			found = true
 		}
